@@ -1203,6 +1203,102 @@ func (h *c20Run) replay() {
 	}
 }
 
+// tapeDependence: which random bytes does each secret byte's polynomial use?  For a
+// secret of L bytes and threshold t the split draws L*(t-1) coefficients.  Every tape
+// position is varied over all 256 values (three base tapes) and the share bytes that
+// change are recorded: the column of share bytes belonging to secret byte j must depend
+// on exactly t-1 tape positions, the position sets of different secret bytes must be
+// disjoint (otherwise a few shares of one byte say something about another byte: the
+// one-byte counting argument of splitFull would not carry over to longer secrets), and
+// the x-coordinate byte must not depend on the coefficient tape at all.
+func (h *c20Run) tapeDependence() {
+	res := h.res
+	type shape struct{ L, n, t int }
+	shapes := []shape{{2, 4, 3}, {3, 4, 3}, {2, 5, 4}, {3, 3, 2}, {4, 4, 3}}
+	if vout.Thorough() {
+		shapes = append(shapes, shape{2, 6, 5}, shape{5, 5, 3}, shape{3, 6, 6}, shape{8, 4, 3})
+	}
+	for si, sp := range shapes {
+		if !h.mine() {
+			continue
+		}
+		sh := h.shuffle(si % 4)
+		secret := make([]byte, sp.L)
+		for i := range secret {
+			secret[i] = byte(0x35*i + 0x11)
+		}
+		var buf []byte
+		// how many tape bytes does this shape consume?
+		probe := make([]byte, sp.L*(sp.t-1)+64)
+		_, consumed, _, err := h.split(sh, secret, sp.n, sp.t, probe, &buf)
+		if err != nil {
+			h.t.Fatalf("harness: split: %v", err)
+		}
+		tl := consumed - len(sh.prefix)
+		if tl != sp.L*(sp.t-1) {
+			res.Violate("c20:split:tape-length", fmt.Sprintf("Split(len=%d,n=%d,t=%d) consumed %d coefficient bytes, %d secret bytes x %d coefficients were expected", sp.L, sp.n, sp.t, tl, sp.L, sp.t-1), nil)
+			continue
+		}
+		dep := make([]map[int]bool, sp.L+1) // column -> tape positions (column L = the x byte)
+		for j := range dep {
+			dep[j] = map[int]bool{}
+		}
+		for b := 0; b < 3; b++ {
+			base := make([]byte, tl)
+			for i := range base {
+				base[i] = byte(b*0x5b + i*0x1d + b)
+			}
+			ref, _, _, err := h.split(sh, secret, sp.n, sp.t, base, &buf)
+			if err != nil {
+				h.t.Fatalf("harness: split: %v", err)
+			}
+			refc := make([][]byte, len(ref))
+			for i := range ref {
+				refc[i] = append([]byte{}, ref[i]...)
+			}
+			for p := 0; p < tl; p++ {
+				for v := 0; v < 256; v++ {
+					if byte(v) == base[p] {
+						continue
+					}
+					tape := append([]byte{}, base...)
+					tape[p] = byte(v)
+					got, _, _, err := h.split(sh, secret, sp.n, sp.t, tape, &buf)
+					res.Add("evaluations", 1)
+					if err != nil || len(got) != len(refc) {
+						h.t.Fatalf("harness: split under a varied tape: %v", err)
+					}
+					for i := range got {
+						for j := 0; j <= sp.L; j++ {
+							if got[i][j] != refc[i][j] {
+								dep[j][p] = true
+							}
+						}
+					}
+				}
+			}
+		}
+		art := map[string]interface{}{"section": "tapedep", "len": sp.L, "n": sp.n, "t": sp.t}
+		if len(dep[sp.L]) != 0 {
+			res.Violate("c20:split:x-coordinate-depends-on-coefficient-tape", fmt.Sprintf("%v: the x-coordinate byte changes with tape positions %v", art, dep[sp.L]), art)
+		}
+		owner := map[int]int{}
+		for j := 0; j < sp.L; j++ {
+			if len(dep[j]) != sp.t-1 {
+				res.Violate("c20:split:sub-threshold-dependence", fmt.Sprintf("%v: secret byte %d's share column depends on %d tape positions, a polynomial of degree %d has %d random coefficients", art, j, len(dep[j]), sp.t-1, sp.t-1), art)
+			}
+			for p := range dep[j] {
+				if o, taken := owner[p]; taken {
+					res.Violate("c20:split:sub-threshold-dependence", fmt.Sprintf("%v: tape position %d feeds the polynomials of secret bytes %d and %d: their shares are not independent", art, p, o, j), art)
+				}
+				owner[p] = j
+			}
+		}
+		res.Distinct("nontrivial", fmt.Sprintf("tapedep|%d|%d|%d", sp.L, sp.n, sp.t))
+	}
+	res.Bound("tape_dependence_shapes", len(shapes))
+}
+
 func TestVerifC20Shamir(t *testing.T) {
 	res := vout.New("C20", "shamir")
 	defer func() {
@@ -1223,7 +1319,7 @@ func TestVerifC20Shamir(t *testing.T) {
 	for _, sec := range []struct {
 		name string
 		f    func()
-	}{{"split", h.splitFull}, {"eval", h.eval}, {"recon", h.recon}, {"field", h.field}, {"combine", h.combine}, {"xcoords", h.xcoords}, {"large", h.large}} {
+	}{{"split", h.splitFull}, {"eval", h.eval}, {"recon", h.recon}, {"field", h.field}, {"combine", h.combine}, {"xcoords", h.xcoords}, {"large", h.large}, {"tapedep", h.tapeDependence}} {
 		t0 := time.Now()
 		sec.f()
 		res.Add("cpu_ms_"+sec.name, time.Since(t0).Milliseconds())
